@@ -9,10 +9,10 @@ package autodiff
 // ---------------------------------------------------------------------------
 // search: membership and ceiling are defined by the search-path unfolding over the entry heap
 
-//@ spec member(n *AvlNode, k int) bool = uf(member, bool, n, k)
+//@ spec member(n *AvlNode, k int) bool = uf(member, bool, n, k, heap(AvlNode.Left), heap(AvlNode.Right), heap(AvlNode.Value))
 //@ spec memberDef() bool = forall n *AvlNode, k int :: member(n, k) <==>
 //@   (n != nil && (k == n.Value || (k < n.Value && member(n.Left, k)) || (k > n.Value && member(n.Right, k))))
-//@ spec ceil(n *AvlNode, k int) *AvlNode = as(*AvlNode, uf(ceil, int, n, k))
+//@ spec ceil(n *AvlNode, k int) *AvlNode = as(*AvlNode, uf(ceil, int, n, k, heap(AvlNode.Left), heap(AvlNode.Right), heap(AvlNode.Value)))
 //@ spec ceilDef() bool = forall n *AvlNode, k int :: ceil(n, k) ==
 //@   ite(n == nil, nil, ite(k == n.Value, n, ite(k < n.Value, ite(ceil(n.Left, k) != nil, ceil(n.Left, k), n), ceil(n.Right, k))))
 
